@@ -7,6 +7,7 @@ model's verdict at every call *is* the documented validity predicate, for every 
 calls of any length, that every configuration that starts a session satisfies the invariant
 the sessions index by, and that every misuse call leaves the session state untouched.
 -/
+import GgrsModel.Model.Inventory
 import GgrsModel.Model.Builder
 
 namespace Ggrs.Builder
